@@ -887,13 +887,94 @@ func (it *Interp) gammaPath(o *Object, e ast.Expr) (Value, bool) {
 		if !ok {
 			return nil, false
 		}
-		ft := fieldType(bo.Type, x.Sel.Name)
+		name := x.Sel.Name
+		ft := fieldType(bo.Type, name)
+		if ft == nil {
+			// an unexported field may have been renamed: resolve by the type of the field
+			if alt := FieldAlias(bo.Type, name); alt != "" {
+				name = alt
+				ft = fieldType(bo.Type, name)
+			}
+		}
 		if ft == nil {
 			return nil, false
 		}
-		return it.getField(bo, x.Sel.Name, ft), true
+		return it.getField(bo, name, ft), true
 	}
 	return nil, false
+}
+
+// fieldInitialisers: how the constructors initialise the unexported sub-indicator fields the
+// frozen tables (Γ, formula specifications) refer to - the identity of such a field is what it
+// is initialised with, not what it is called or where it stands in the struct.
+var fieldInitialisers = map[string]map[string]string{
+	"trend.Hma": {
+		"wma1": "NewWmaWith[T](int(math.Round(float64(period) / 2)))",
+		"wma2": "NewWmaWith[T](period)",
+		"wma3": "NewWmaWith[T](int(math.Round(math.Sqrt(float64(period)))))",
+	},
+	"volatility.Po": {
+		"mls": "trend.NewMlsWithPeriod[T](period)",
+		"min": "trend.NewMovingMinWithPeriod[T](period)",
+		"max": "trend.NewMovingMaxWithPeriod[T](period)",
+	},
+}
+
+// AliasProgram is the program whose constructors FieldAlias inspects (set by NewInterp).
+var AliasProgram *load.Program
+
+// FieldAlias resolves the name a frozen table uses for an UNEXPORTED field against the struct as
+// it is now: the field of that type which a keyed composite literal in the type's package
+// initialises with the recorded expression. Exported fields are API and are matched by name only.
+func FieldAlias(t types.Type, name string) string {
+	if name == "" || name[0] < 'a' || name[0] > 'z' || t == nil || AliasProgram == nil {
+		return ""
+	}
+	if p, ok := t.(*types.Pointer); ok {
+		t = p.Elem()
+	}
+	nt, ok := t.(*types.Named)
+	if !ok || nt.Obj().Pkg() == nil {
+		return ""
+	}
+	rel := load.RelPkg(nt.Obj().Pkg().Path())
+	want, ok := fieldInitialisers[rel+"."+nt.Obj().Name()][name]
+	if !ok {
+		return ""
+	}
+	pk := AliasProgram.Pkg(rel)
+	if pk == nil {
+		return ""
+	}
+	found := ""
+	for _, f := range pk.Syntax {
+		ast.Inspect(f, func(n ast.Node) bool {
+			cl, ok := n.(*ast.CompositeLit)
+			if !ok {
+				return true
+			}
+			ct := pk.TypesInfo.TypeOf(cl)
+			if ct == nil {
+				return true
+			}
+			if p, ok := ct.(*types.Pointer); ok {
+				ct = p.Elem()
+			}
+			cn, ok := ct.(*types.Named)
+			if !ok || cn.Origin().Obj() != nt.Origin().Obj() {
+				return true
+			}
+			for _, el := range cl.Elts {
+				if kv, ok := el.(*ast.KeyValueExpr); ok {
+					if k, ok := kv.Key.(*ast.Ident); ok && types.ExprString(kv.Value) == want {
+						found = k.Name
+					}
+				}
+			}
+			return true
+		})
+	}
+	return found
 }
 
 func fieldType(t types.Type, name string) types.Type {
